@@ -83,11 +83,11 @@ func c33Gen(t *rapid.T) c33Case {
 	default:
 		c.Peers = []int{2, 1}
 	}
-	ng := rapid.SampledFrom([]int{0, 0, 0, 1, 1, 2}).Draw(t, "ghosts")
+	ng := rapid.SampledFrom([]int{0, 0, 0, 1, 1, 2, 2}).Draw(t, "ghosts")
 	for i := 0; i < ng; i++ {
 		c.GhostRoles = append(c.GhostRoles, rapid.SampledFrom([]string{"", "r2", "r3"}).Draw(t, "ghost_role"))
 	}
-	c.Order = rapid.Permutation(c33Iota(len(c.Peers) + ng)).Draw(t, "order")
+	c.Order = rapid.Permutation(c33Iota(len(c.Peers)+ng)).Draw(t, "order")
 	c.Crash = rapid.IntRange(0, 4).Draw(t, "crash") == 0
 	na := rapid.IntRange(0, 6).Draw(t, "actors")
 	for i := 0; i < na; i++ {
@@ -550,6 +550,20 @@ func c33Exec(t *testing.T) func(x *vfkit.X, c c33Case) {
 			}
 			if inst.Live == 1 && listed {
 				x.Class("actor_listed_but_running")
+			}
+			if inst.Live == 1 && !listed {
+				// a successful (re)spawn is resolvable by name (Spawn / SpawnSingleton contract), and an
+				// actor that was already running elsewhere keeps its record
+				f.reg.mu.Lock()
+				rec, ok := f.reg.actors[it.name]
+				f.reg.mu.Unlock()
+				host := inst.Hosts[len(inst.Hosts)-1]
+				if !ok {
+					x.Failf("running-actor-registry-record-lost", "%s: runs on %s after the relocation settled but the cluster registry has no record of it", desc, host)
+				}
+				if addr, err := address.Parse(rec.GetAddress()); err != nil || addr.HostPort() != host {
+					x.Failf("running-actor-registry-record-stale", "%s: runs on %s after the relocation settled but its registry record is %q", desc, host, rec.GetAddress())
+				}
 			}
 		}
 		for _, g := range gitems {
